@@ -5,7 +5,6 @@ package main
 import (
 	"fmt"
 	"math"
-	"os"
 	"strings"
 
 	"gonum.org/v1/gonum/internal/verif/vlib"
@@ -15,17 +14,8 @@ import (
 
 type tolFn func(i, j int) float64
 
-// failClass reports a triaged finding under its class name. For development the
-// environment variable C04_HIDE (comma separated class names) turns the listed
-// classes into counters so that the remaining output can be inspected; it is
-// never set by the driver.
+// failClass reports a triaged finding under its class name (matched by /verif/known_findings.jsonl).
 func failClass(t *vlib.T, class, format string, a ...any) {
-	for _, h := range strings.Split(os.Getenv("C04_HIDE"), ",") {
-		if h == class {
-			t.Count("hidden/"+class, 1)
-			return
-		}
-	}
 	t.FailClass(class, format, a...)
 }
 
